@@ -280,6 +280,18 @@ def make_payload(rng, cls, n):
     raise ValueError(cls)
 
 
+def case_payloads(rng, spec):
+    """(class, size) list -> (class, bytes) list; class "again" repeats the first message of the case byte for byte, so that a
+    compressor with context takeover refers back across everything that was sent in between"""
+    out = []
+    for cls, n in spec:
+        if cls == "again" and out:
+            out.append(("again", out[0][1]))
+        else:
+            out.append((cls, make_payload(rng, "random" if cls == "again" else cls, n)))
+    return out
+
+
 class RefInflater:
     """the client's view of what the server sends"""
     def __init__(self, wbits, no_takeover):
@@ -883,7 +895,7 @@ def open_negotiated(res, holder, case, shape):
 def sc_s2c(case, res):
     p = case["params"]
     rng = random.Random(case["seed"])
-    payloads = [(cls, make_payload(rng, cls, n)) for cls, n in p["payloads"]]
+    payloads = case_payloads(rng, p["payloads"])
     shape = "s2c-payload=" + size_class(len(payloads[0][1]))
 
     def body(holder):
@@ -912,7 +924,7 @@ def sc_s2c(case, res):
 def sc_c2s(case, res):
     p = case["params"]
     rng = random.Random(case["seed"])
-    payloads = [(cls, make_payload(rng, cls, n)) for cls, n in p["payloads"]]
+    payloads = case_payloads(rng, p["payloads"])
     style = p.get("style", "sync")
     suffix = p["frag"] if p["frag"] == "single" else "fragmented:" + p["frag"].split(":")[0]
     if style == "bfinal":
@@ -1200,6 +1212,18 @@ def gen_cases(tier, seed):
                 det = ("empty-later", level, sorted(offer.items()), kind)
                 add("s2c", fixed=det, level=level, kind=kind, offer=offer, payloads=[("text", 40), ("random", 0), ("text", 40)])
                 add("s2c", fixed=det, level=level, kind=kind, offer=offer, payloads=[("random", 0), ("random", 0), ("json", 300), ("random", 0)])
+    # --- both directions: a later message repeats the first one behind 1..40 KiB of other traffic (back-references over long
+    # distances: each side must keep exactly the window that was negotiated for the OTHER side's compressor)
+    far_offers = [{}, {"smwb": "9"}, {"smwb": "10", "cmwb": "13"}, {"smwb": "9", "cmwb": None}, {"cmwb": "9"}, {"cmwb": "10", "smwb": "14"},
+                  {"smwb": "12", "cmwb": "12"}, {"cmwb": None}]
+    for level in (1, 2, 3):
+        for oi, offer in enumerate(far_offers):
+            for gap in ((700, 3000, 40000) if thorough else (700, 9000)):
+                det = ("far-back-reference", level, oi, gap)
+                pls = [("random", 600), ("random", gap), ("again", 0), ("text", 50), ("again", 0)]
+                add("c2s", fixed=det, level=level, kind="b", offer=offer, frag="single", payloads=pls, zlevel=9)
+                add("c2s", fixed=det, level=level, kind="t", offer=offer, frag="halves", payloads=[("json", 600), ("json", gap), ("again", 0)], zlevel=6)
+                add("s2c", fixed=det, level=level, kind="b", offer=offer, payloads=pls)
     # --- s2c: frame length boundaries (compressed length 125/126/127, 65535/65536)
     for level in (1, 2, 3):
         for n in range(108, 132, 1 if thorough else 2):
